@@ -473,7 +473,11 @@ def load_known():
     p = os.path.join(ROOT, "known_findings.json")
     if not os.path.exists(p):
         return []
-    return json.load(open(p)).get("findings", [])
+    out = list(json.load(open(p)).get("findings", []))
+    import glob
+    for f in sorted(glob.glob(os.path.join(ROOT, "known_findings.d", "*.json"))):
+        out += json.load(open(f)).get("findings", [])
+    return out
 
 
 def match_known(prop, cls, known=None):
